@@ -1,5 +1,6 @@
 """C09 / C10 / C11: the sync properties (shared generation and correspondence, one predicate each)."""
 import ast
+import json
 import random
 
 from . import gen as G
@@ -51,7 +52,7 @@ class SyncProp(Prop):
         }
 
     def observe(self, c):
-        key = id(c)
+        key = json.dumps(c, sort_keys=True, default=repr)
         if getattr(self, "_ck", None) != key:
             self._cv = syncbase.run_syncs(c["cfg"], n_runs=self.n_runs, via_cli=c["via_cli"], truths=c.get("truths"))
             self._ck = key
